@@ -140,8 +140,8 @@ def run(ctx):
     header_line_rule(ctx)
 
 
-def maps_rules(ctx):
-    fv = ctx.need("C03.K1", MAPS)
+def maps_rules(ctx, P="C03"):
+    fv = ctx.need(P + ".K1", MAPS)
     if fv is None:
         return
     kp = param_index(fv, "ksize")
@@ -155,20 +155,20 @@ def maps_rules(ctx):
         if it[0] == "struct" and it[1].endswith("ops::Range"):
             code_loop = l
     if not alloc or code_loop is None:
-        ctx.fail("C03.K1", "kmer_pos_maps:shape", "table allocation / code loop not found", fv.fn["sp"])
+        ctx.fail(P + ".K1", "kmer_pos_maps:shape", "table allocation / code loop not found", fv.fn["sp"])
         return
     for what, t, node in (("table", fv.term(alloc[0]["args"][1]), alloc[0]),
                           ("range", dict(fv.term(code_loop["iter"])[2]).get("end"), code_loop)):
         try:
             got = pow2form(t, ksym, ctx.prog.consts)
-            ctx.check("C03.K1", "kmer_pos_maps:%s" % what, got == {(2, 0): 1},
+            ctx.check(P + ".K1", "kmer_pos_maps:%s" % what, got == {(2, 0): 1},
                       "%s size %s ≡ 4^k" % (what, show(t)),
                       "%s size `%s` normalises to %s, expected 2^(2k) = 4^k" % (what, show(t), pow2show(got)),
                       line_of(node))
         except NotPoly as e:
-            ctx.fail("C03.K1", "kmer_pos_maps:%s" % what, "%s size `%s`: %s" % (what, show(t), e), line_of(node))
+            ctx.fail(P + ".K1", "kmer_pos_maps:%s" % what, "%s size `%s`: %s" % (what, show(t), e), line_of(node))
     start = dict(fv.term(code_loop["iter"])[2]).get("start")
-    ctx.check("C03.K1", "kmer_pos_maps:range_start", start == L(0), "codes from 0",
+    ctx.check(P + ".K1", "kmer_pos_maps:range_start", start == L(0), "codes from 0",
               "code loop starts at %s" % show(start), line_of(code_loop))
     # K2: set.insert(min(code, rev_comp(code, k)))
     code = ("item", fv.term(code_loop["iter"]))
@@ -176,7 +176,7 @@ def maps_rules(ctx):
            or n.get("k") == "mcall" and cname(n).endswith("BTreeSet::insert")]
     exp = mk_bin("min", code, ("call", REVCOMP, code, ("param", kp)))
     ok = len(ins) == 1 and fv.term(ins[0]["args"][0]) == exp
-    ctx.check("C03.K2", "kmer_pos_maps:canonical", ok, "set <- min(x, rev_comp(x, k))",
+    ctx.check(P + ".K2", "kmer_pos_maps:canonical", ok, "set <- min(x, rev_comp(x, k))",
               "the canonical set receives `%s`, expected min(code, rev_comp(code, ksize))"
               % (show(fv.term(ins[0]["args"][0])) if ins else "<no insert>"),
               line_of(ins[0]) if ins else line_of(code_loop))
@@ -189,7 +189,7 @@ def maps_rules(ctx):
         if it[0] == "call" and it[1].endswith("Iterator::enumerate"):
             enum_loop = l
     if enum_loop is None:
-        ctx.fail("C03.K3", "kmer_pos_maps:enumerate", "rank assignment loop (`.iter().enumerate()`) not found",
+        ctx.fail(P + ".K3", "kmer_pos_maps:enumerate", "rank assignment loop (`.iter().enumerate()`) not found",
                  fv.fn["sp"])
         return
     it = fv.term(enum_loop["iter"])
@@ -209,7 +209,7 @@ def maps_rules(ctx):
         if b and b["val"][0] == "node":
             src = fv.term(b["val"][1])
             src_ok = set_t is not None and contains(src, lambda s: s == set_t)
-    ctx.check("C03.K3", "kmer_pos_maps:sorted", (sorted_before or ordered_set) and src_ok,
+    ctx.check(P + ".K3", "kmer_pos_maps:sorted", (sorted_before or ordered_set) and src_ok,
               "vector from the canonical set is sorted before ranks are assigned",
               "the vector enumerated for ranks is not (provably) the sorted canonical set: sorted=%s, "
               "built-from-set=%s — hash order must not reach a column index" % (sorted_before or ordered_set, src_ok),
@@ -221,18 +221,18 @@ def maps_rules(ctx):
     ins2 = [n for n in walk(enum_loop["body"]) if n.get("k") == "mcall" and cname(n).endswith("Map::insert")]
     ok1 = len(asg) == 1 and fv.term(asg[0]["l"])[0] == "index" and fv.term(asg[0]["l"])[2] == kmer \
         and fv.term(asg[0]["r"]) == pos
-    ctx.check("C03.K4", "kmer_pos_maps:kmer_to_rank", ok1, "rank_of[kmer] = pos",
+    ctx.check(P + ".K4", "kmer_pos_maps:kmer_to_rank", ok1, "rank_of[kmer] = pos",
               "k-mer -> rank write is `%s = %s`, expected table[kmer] = pos"
               % ((show(fv.term(asg[0]["l"])), show(fv.term(asg[0]["r"]))) if asg else ("?", "?")),
               line_of(asg[0]) if asg else line_of(enum_loop))
     ok2 = len(ins2) == 1 and [fv.term(a) for a in ins2[0]["args"]] == [pos, kmer]
-    ctx.check("C03.K4", "kmer_pos_maps:rank_to_kmer", ok2, "kmer_of.insert(pos, kmer)",
+    ctx.check(P + ".K4", "kmer_pos_maps:rank_to_kmer", ok2, "kmer_of.insert(pos, kmer)",
               "rank -> k-mer insert is `%s`, expected insert(pos, kmer) with the same pair"
               % (show(fv.term(ins2[0])) if ins2 else "<none>"), line_of(ins2[0]) if ins2 else line_of(enum_loop))
     res = fv.term(fv.body.get("expr")) if fv.body.get("expr") else ("none",)
     ok3 = res[0] == "tup" and len(res) == 4 and set_t is not None and is_len_of(res[3], set_t) \
         and ok1 and res[1] == fv.term(asg[0]["l"])[1] and ok2 and res[2] == fv.term(ins2[0]["recv"])
-    ctx.check("C03.K4", "kmer_pos_maps:result", ok3, "returns (rank_of, kmer_of, |canonical set|)",
+    ctx.check(P + ".K4", "kmer_pos_maps:result", ok3, "returns (rank_of, kmer_of, |canonical set|)",
               "result `%s` is not (rank table, rank->kmer map, size of the canonical set)" % show(res),
               line_of(fv.body))
 
